@@ -109,12 +109,12 @@ CLAIMS['C09'] = dict(
     design_ref='DESIGN.md 5 C09')
 
 CLAIMS['C10'] = dict(
-    category='other',
-    text='BOUNDED STAND-IN ONLY, no proof: adjust_mappings (a sweep with labelled breaks over two hand-advanced iterators, a local struct, a nested fn taking a fn pointer, '
-         'Peekable, `as i32` displacement arithmetic) was not brought within the reach of the verifier; its contract -- the interval-by-interval composition of the property '
-         'statement -- is checked by exhaustive enumeration over a stated finite space on the real crate (bounded/: adjust, adjust_dups). Known finding D10 (duplicate positions).',
-    note='No obligation is discharged for this property. Bound: original maps of <= 3 tokens and adjustment maps of <= 2 tokens over small grids with 4 displacements.',
-    technique='bounded enumeration of the function contract (stand-in for contract-based deductive verification)',
+    text='PARTIAL: proof that create_ranges yields one stretch per token, ordered by the key, each starting at its token and ending where the next one starts or at the end '
+         'of its line, whichever comes first (the definition of "stretch" in the property). The sweep of adjust_mappings itself -- labelled breaks out of nested loops over two '
+         'hand-advanced iterators, `as i32` displacement arithmetic -- was not brought within reach: its contract, the interval-by-interval composition of the statement, is '
+         'checked by a BOUNDED stand-in on the real crate (bounded/: adjust, adjust_dups). Known finding D10 (duplicate positions).',
+    note=_TB + 'Peekable / map_or / cmp::min / sort_unstable_by_key are assumed by contract; the fn-pointer parameter is verified as a generic Fn (R-fnptr). Bound of the stand-in: original maps of <= 3 tokens '
+         'and adjustment maps of <= 2 tokens over small grids with 4 displacements.',
     design_ref='DESIGN.md 5 C10')
 
 _BOUNDED_ONLY = ('BOUNDED STAND-IN ONLY, no proof: %s No obligation is discharged for this property; its contract is checked by exhaustive enumeration over a stated '
@@ -151,6 +151,7 @@ NOT_APPLICABLE['C16'] = ('concurrency (interleavings of threads sharing a Source
 
 # parts of each property that no discharged obligation covers (reported in every evidence file, never counted)
 NOT_COVERED = {
+    'C10': ['the sweep of adjust_mappings (skip / overlap / clip / advance, displacement arithmetic, final sort): bounded stand-in only', 'positions >= 2^31 (as i32)'],
     'C09': ['rewrite_with_mapping loop, strip_prefixes, find_common_prefix ("~"), load_local_source_contents (filesystem; excluded by the property)', 'SourceMapHermes::rewrite function-map permutation (bounded stand-in only)'],
     'C05': ['dependencies (serde_json, url, bitvec, data-encoding, base64-simd, debugid)', 'sourceview.rs, js_identifiers.rs, detector.rs line scan, Display/Debug impls, ram_bundle.rs',
             'flatten (+ off_col / + off_line overflow, design-phase defect D6), rewrite, adjust_mappings, range bitfield writer (D4), decode_hermes', 'allocation in proportion to the input; wall-clock (only termination is proved)'],
